@@ -334,3 +334,267 @@ func c17HistoryCase(r *Rng) Record {
 	}
 	return rec
 }
+
+// ---------- C01 class agg-containers ----------
+//
+// One case in 32. An aggregate function receives the list of ALL values its parameter path selects, whatever those
+// values are: here the parameter path has its value-group step (wildcard, union, slice, multi-name list, filter, `..`)
+// AFTER a first plain step, and most of the selected values are themselves arrays or objects (first match an array in
+// two cases of three) — `$.a.*.list()`, `$.a[0:2].first()`, `$.a['x','y'].count()`, `$.a[?(@.v)].v.max()`, `$.a.*.v.count()`,
+// `$.b..a.list()`, and the same behind `@` inside a filter operand (`$.r[?(@.w.*.count() == 2)]`). Expected: the specification.
+
+func c01AggContainersCase(r *Rng) Record {
+	num := func() interface{} { return float64(r.Range(0, 5)) }
+	arr := func(lo, hi int) interface{} {
+		out := make([]interface{}, r.Range(lo, hi))
+		for i := range out {
+			out[i] = num()
+		}
+		return out
+	}
+	val := func(first bool) interface{} {
+		w := []int{55, 15, 20, 5, 5}
+		if first {
+			w = []int{70, 10, 10, 5, 5}
+		}
+		switch r.Weighted(w) {
+		case 0:
+			return arr(0, 3)
+		case 1:
+			return map[string]interface{}{"p": num(), "q": num()}
+		case 2:
+			return num()
+		case 3:
+			return r.Pick([]string{"s", "", "x"})
+		}
+		return []interface{}{arr(1, 2), num()}
+	}
+	keys := []string{"w", "x", "y", "z"}
+	// group: a container of 2..4 values (most of them containers themselves)
+	group := func(asObj bool, wrap string) interface{} {
+		n := r.Range(2, 4)
+		vs := make([]interface{}, n)
+		for i := range vs {
+			vs[i] = val(i == 0)
+			if wrap != "" {
+				m := map[string]interface{}{"n": num()}
+				if r.Chance(85) {
+					m[wrap] = vs[i]
+				}
+				vs[i] = m
+			}
+		}
+		if !asObj {
+			return vs
+		}
+		m := map[string]interface{}{}
+		for i, v := range vs {
+			m[keys[i]] = v
+		}
+		return m
+	}
+	child := func(k string) *Step { return &Step{Kind: StChild, Key: k, Bracket: r.Chance(15)} }
+	i64 := func(n int64) *int64 { return &n }
+	agg := Fn{Agg: true, Name: []string{"list", "first", "count", "max"}[r.Weighted([]int{35, 30, 25, 10})]}
+	asObj := r.Chance(50)
+	doc := map[string]interface{}{"k": num()}
+	var p *Path
+	shape := ""
+	bulk := func() *Step {
+		switch {
+		case r.Chance(50):
+			shape += "wildcard"
+			return &Step{Kind: StWild, Bracket: r.Chance(40)}
+		case asObj:
+			shape += "multi-name"
+			names := []Name{{Key: "w"}, {Key: "x"}}
+			if r.Chance(50) {
+				names = append(names, Name{Key: "y"})
+			}
+			if r.Chance(25) {
+				names[0], names[1] = names[1], names[0]
+			}
+			return &Step{Kind: StMulti, Names: names}
+		case r.Chance(50):
+			shape += "slice"
+			return &Step{Kind: StUnion, Subs: []Sub{{Kind: SubSlice, S: i64(0), E: i64(int64(r.Range(2, 4)))}}}
+		default:
+			shape += "union"
+			return &Step{Kind: StUnion, Subs: []Sub{{Kind: SubIdx, N: 0}, {Kind: SubIdx, N: int64(r.Range(1, 2))}}}
+		}
+	}
+	switch r.Weighted([]int{40, 15, 15, 10, 20}) {
+	case 0:
+		doc["a"] = group(asObj, "")
+		p = &Path{Head: HeadRoot, Steps: []*Step{child("a"), bulk()}}
+	case 1:
+		doc["a"] = group(asObj, "v")
+		shape = "child-after-"
+		p = &Path{Head: HeadRoot, Steps: []*Step{child("a"), bulk(), child("v")}}
+	case 2:
+		doc["a"] = group(false, "v")
+		shape = "filter"
+		q := &Query{Kind: QExist, P: &Path{Head: HeadCur, Steps: []*Step{child("v")}}}
+		p = &Path{Head: HeadRoot, Steps: []*Step{child("a"), {Kind: StFilter, Q: q}, child("v")}}
+	case 3:
+		doc["b"] = map[string]interface{}{"a": val(true), "c": map[string]interface{}{"a": val(false)}, "d": []interface{}{map[string]interface{}{"a": val(false)}}}
+		shape = "recursive"
+		p = &Path{Head: HeadRoot, Steps: []*Step{child("b"), {Kind: StDesc, Inner: &Step{Kind: StChild, Key: "a"}}}}
+	default:
+		// behind `@` in a filter operand, compared with a number
+		n := r.Range(2, 4)
+		recs := make([]interface{}, n)
+		for i := range recs {
+			recs[i] = map[string]interface{}{"w": group(asObj, ""), "n": num()}
+		}
+		doc["r"] = recs
+		shape = "operand-"
+		agg.Name = []string{"count", "max", "first"}[r.Weighted([]int{60, 25, 15})]
+		opnd := &Path{Head: HeadCur, Steps: []*Step{child("w"), bulk()}, Fns: []Fn{agg}}
+		q := &Query{Kind: QCmp, Op: r.Weighted([]int{40, 15, 10, 10, 15, 10}), L: &Operand{Path: opnd}, R: &Operand{IsLit: true, Lit: Lit{Kind: LitNum, N: int64(r.Range(0, 4))}}}
+		if r.Chance(30) {
+			q.L, q.R = q.R, q.L
+		}
+		p = &Path{Head: HeadRoot, Steps: []*Step{child("r"), {Kind: StFilter, Q: q}}}
+		if r.Chance(40) {
+			p.Steps = append(p.Steps, child("n"))
+		}
+		agg.Name = ""
+	}
+	if agg.Name != "" {
+		p.Fns = []Fn{agg}
+		if r.Chance(20) {
+			p.Fns = append(p.Fns, Fn{Name: r.Pick([]string{"id", "wrap"})})
+		}
+	}
+	text := Render(p, r)
+	cfg := Config(false, nil)
+	var d interface{} = doc
+	return c01Check(text, p, p.Sexp(), d, false, &cfg, []string{"class:agg-containers", "agg-containers:" + shape}, map[string]interface{}{}, nil)
+}
+
+// ---------- C01 class second-call-wide ----------
+//
+// One case in 32. A parsed function returns what the path selects from the document as it is NOW, also when the
+// document is big: an object of 16..40 members sits at the root, under a name, inside an array or two levels down;
+// the path leads to it and applies a wildcard (also followed by a name), `..`, a filter or a multi-name list. The
+// function is called once (result discarded), then 1..3 members of the wide object are RENAMED IN PLACE — the map
+// object and its size stay what they were, the new names sort elsewhere — and the same function is called again.
+// The record, the specification and the model all see the renamed document.
+
+func c01SecondCallWideCase(r *Rng) Record {
+	num := func() interface{} { return float64(r.Range(0, 9)) }
+	n := r.Range(16, 40)
+	if r.Chance(25) {
+		n = r.Range(16, 18)
+	}
+	pool := make([]string, 0, 90)
+	for i := 0; i < 60; i++ {
+		pool = append(pool, fmt.Sprintf("k%02d", i))
+	}
+	pool = append(pool, "a", "b", "v", "A", "Z", "_", "aa", "ab", "z", "~", "0", "10", "2", "key", "kez", "k", "k0", "k000", "é", "zz")
+	r.Shuffle(len(pool), func(i, j int) { pool[i], pool[j] = pool[j], pool[i] })
+	wide := map[string]interface{}{}
+	recs := r.Chance(50)
+	for _, k := range pool[:n] {
+		switch {
+		case recs && r.Chance(80):
+			m := map[string]interface{}{"v": num()}
+			if r.Chance(30) {
+				m["w"] = num()
+			}
+			wide[k] = m
+		case r.Chance(15):
+			wide[k] = []interface{}{num(), num()}
+		default:
+			wide[k] = num()
+		}
+	}
+	free := pool[n:]
+	child := func(k string) *Step { return &Step{Kind: StChild, Key: k, Bracket: r.Chance(15)} }
+	var doc interface{}
+	var pre []*Step
+	where := ""
+	switch r.Weighted([]int{30, 40, 15, 15}) {
+	case 0:
+		doc, where = wide, "root"
+	case 1:
+		doc, where = map[string]interface{}{"a": wide, "b": num(), "c": map[string]interface{}{"v": num()}}, "member"
+		pre = []*Step{child("a")}
+	case 2:
+		doc, where = map[string]interface{}{"a": []interface{}{num(), wide, map[string]interface{}{"v": num()}}}, "element"
+		pre = []*Step{child("a"), {Kind: StUnion, Subs: []Sub{{Kind: SubIdx, N: 1}}}}
+	default:
+		doc, where = map[string]interface{}{"a": map[string]interface{}{"b": wide, "v": num()}, "v": num()}, "nested"
+		pre = []*Step{child("a"), child("b")}
+	}
+	var bulk []*Step
+	how := ""
+	cur := func(k string) *Path { return &Path{Head: HeadCur, Steps: []*Step{child(k)}} }
+	switch r.Weighted([]int{40, 15, 12, 18, 15}) {
+	case 0:
+		how, bulk = "wildcard", []*Step{{Kind: StWild, Bracket: r.Chance(40)}}
+	case 1:
+		how, bulk = "wildcard+name", []*Step{{Kind: StWild, Bracket: r.Chance(40)}, child("v")}
+		if !recs {
+			how, bulk = "wildcard", bulk[:1]
+		}
+	case 2:
+		how = "recursive"
+		inner := &Step{Kind: StWild}
+		if r.Chance(50) {
+			inner = &Step{Kind: StChild, Key: "v"}
+		}
+		bulk = []*Step{{Kind: StDesc, Inner: inner}}
+	case 3:
+		how = "filter"
+		q := &Query{Kind: QCmp, Op: r.Weighted([]int{20, 20, 15, 15, 15, 15}), L: &Operand{Path: cur("v")}, R: &Operand{IsLit: true, Lit: Lit{Kind: LitNum, N: int64(r.Range(0, 9))}}}
+		if !recs || r.Chance(30) {
+			q = &Query{Kind: QExist, P: cur(pick(recs, "w", "v").(string)), Neg: r.Chance(50)}
+		}
+		bulk = []*Step{{Kind: StFilter, Q: q}}
+	default:
+		how = "multi-name"
+		names := []Name{{Wild: true}}
+		ks := sortedKeys(wide)
+		for c := r.Range(1, 3); c > 0; c-- {
+			names = append(names, Name{Key: r.Pick(ks)})
+		}
+		r.Shuffle(len(names), func(i, j int) { names[i], names[j] = names[j], names[i] })
+		bulk = []*Step{{Kind: StMulti, Names: names}}
+	}
+	p := &Path{Head: HeadRoot, Steps: append(pre, bulk...)}
+	text := Render(p, r)
+	cfg := Config(false, nil)
+	var renamed []string
+	after := func(f Parsed) func() string {
+		SafeCall(f, doc)
+		if r.Chance(30) {
+			SafeCall(f, doc)
+		}
+		ks := sortedKeys(wide)
+		for c := r.Range(1, 3); c > 0 && len(free) > 0; c-- {
+			k := ks[r.Intn(len(ks))]
+			if _, in := wide[k]; !in {
+				continue
+			}
+			nk := free[0]
+			free = free[1:]
+			v := wide[k]
+			delete(wide, k)
+			wide[nk] = v
+			renamed = append(renamed, fmt.Sprintf("%q -> %q", k, nk))
+		}
+		if len(wide) != n {
+			panic("c01SecondCallWideCase changed the size")
+		}
+		return func() string { return "" }
+	}
+	info := map[string]interface{}{"members_of_the_wide_object": n}
+	rec := c01Check(text, p, p.Sexp(), doc, false, &cfg, []string{"class:second-call-wide", "second-call-wide:" + where, "second-call-wide:" + how}, info, after)
+	if rec.Info == nil {
+		rec.Info = map[string]interface{}{}
+	}
+	rec.Info["renamed_in_place_after_the_first_call"] = renamed
+	return rec
+}
